@@ -79,7 +79,7 @@ ValTok(ts, i, o, inCalc) ==
     LET t == ts[i]  g == ValGap(ts, i, inCalc) IN
     CASE IsBlock(t) ->
             <<Out(Opener(t), g, t.id)>>
-            \o ValToks(t.a, 1, o, (t.k = "func" /\ t.v = "calc") \/ (inCalc /\ t.k \in {"paren", "func"}))
+            \o ValToks(t.a, 1, o, (t.k = "func" /\ t.v \in {"calc", "CALC", "Calc"}) \/ (inCalc /\ t.k \in {"paren", "func"}))
             \o <<Out(Closer(t), "free", t.id)>>
       [] t.k = "dim" /\ t.unit = "rpx" ->
             <<OutN([k |-> "dim", n |-> t.n, unit |-> "vw", conv |-> TRUE], g, t.id, "rpx")>>
